@@ -41,10 +41,13 @@ func (prog *Program) MethodValue(sel *types.Selection) *Function {
 	}
 
 	var b builder
+	verifEvent("mv_begin", &b, nil)
 
 	m := func() *Function {
 		prog.methodsMu.Lock()
 		defer prog.methodsMu.Unlock()
+		verifEvent("mv_lock", &b, nil)
+		defer verifEvent("mv_unlock", &b, nil)
 
 		// Get or create SSA method set.
 		mset, ok := prog.methodSets.At(T)
@@ -64,6 +67,7 @@ func (prog *Program) MethodValue(sel *types.Selection) *Function {
 				fn = createWrapper(prog, toSelection(sel), nil)
 				fn.buildshared = b.shared()
 				b.enqueue(fn)
+				verifEvent("create", &b, fn)
 			} else {
 				fn = prog.objectMethod(obj, nil, &b)
 			}
@@ -73,12 +77,14 @@ func (prog *Program) MethodValue(sel *types.Selection) *Function {
 			mset.mapping[id] = fn
 		} else {
 			b.waitForSharedFunction(fn)
+			verifEvent("hit", &b, fn)
 		}
 
 		return fn
 	}()
 
 	b.iterate()
+	verifEvent("mv_end", &b, m)
 
 	return m
 }
@@ -108,6 +114,7 @@ func (prog *Program) objectMethod(obj *types.Func, targs []types.Type, b *builde
 	}
 
 	// Consult/update cache of methods created from types.Func.
+	verifEvent("ref?", b, nil)
 	prog.objectMethodsMu.Lock()
 	defer prog.objectMethodsMu.Unlock()
 	fn, ok := prog.objectMethods[obj]
@@ -121,8 +128,10 @@ func (prog *Program) objectMethod(obj *types.Func, targs []types.Type, b *builde
 			prog.objectMethods = make(map[*types.Func]*Function)
 		}
 		prog.objectMethods[obj] = fn
+		verifEvent("create", b, fn)
 	} else {
 		b.waitForSharedFunction(fn)
+		verifEvent("hit", b, fn)
 	}
 	return fn
 }
